@@ -564,8 +564,11 @@ type c17Run struct {
 	trace   []string
 	stopped bool
 	st      c17Stats
-	// what the most recent power loss interrupted (for fingerprints)
+	// what the most recent power loss interrupted (for messages)
 	lastCrash string
+	// an undo(kernel) was interrupted by a power loss and no boot has been
+	// marked successful since (for the F-C17-1 fingerprint)
+	undoKernelCut bool
 }
 
 type c17Snap struct {
@@ -575,10 +578,11 @@ type c17Snap struct {
 	stopped   bool
 	st        c17Stats
 	lastCrash string
+	undoKCut  bool
 }
 
 func (r *c17Run) snapshot() c17Snap {
-	return c17Snap{w: r.w.snapshot(), m: r.m.clone(), trace: append([]string(nil), r.trace...), stopped: r.stopped, st: r.st, lastCrash: r.lastCrash}
+	return c17Snap{w: r.w.snapshot(), m: r.m.clone(), trace: append([]string(nil), r.trace...), stopped: r.stopped, st: r.st, lastCrash: r.lastCrash, undoKCut: r.undoKernelCut}
 }
 
 func (r *c17Run) restore(s c17Snap) {
@@ -588,6 +592,7 @@ func (r *c17Run) restore(s c17Snap) {
 	r.stopped = s.stopped
 	r.st = s.st
 	r.lastCrash = s.lastCrash
+	r.undoKernelCut = s.undoKCut
 }
 
 func (r *c17Run) logf(format string, args ...interface{}) {
@@ -685,6 +690,9 @@ func (r *c17Run) setOp(op c17Op, crashAt int, undo bool) (int, error) {
 	case crashed:
 		r.logf("%s(%s,%d) POWER LOSS before write %d -> %s", name, c17TypName[t], rev, crashAt, r.w.describe())
 		r.noteCrash(fmt.Sprintf("%s-%s@%d/%d", name, c17TypName[t], crashAt, n))
+		if undo && t == 0 {
+			r.undoKernelCut = true
+		}
 		r.st.crashInSetOrMark++
 	case err != nil:
 		r.logf("%s(%s,%d) error: %v", name, c17TypName[t], rev, err)
@@ -1015,6 +1023,7 @@ func (r *c17Run) bootOp(op c17Op, crashAt int) (int, error) {
 				r.m.T[t].Cancelled = nil
 				r.m.T[t].Must = false
 			}
+			r.undoKernelCut = false
 			r.logf("  marked successful -> %s", w.describe())
 		}
 		return w.ctl.pos, nil
@@ -1115,7 +1124,7 @@ func c17OpString(op c17Op) string {
 // switched back: the bootloader still starts the kernel being undone, which the
 // initramfs refuses ("fallback kernel snap ... is not trusted in the modeenv").
 func c17Fingerprint(fl string, r *c17Run, v *c17Viol) string {
-	if fl != c17UC16 && v.kind == "boot-stops" && strings.HasPrefix(r.lastCrash, "undo-kernel@") &&
+	if fl != c17UC16 && v.kind == "boot-stops" && r.undoKernelCut &&
 		strings.Contains(v.msg, "is not trusted in the modeenv") {
 		return "F-C17-1"
 	}
